@@ -17,60 +17,69 @@ __CPROVER_ensures(__CPROVER_return_value.u64[1] == __CPROVER_uninterpreted_aes_h
 __CPROVER_assigns();
 RXV_AES_CONTRACT(soft_aesenc, 0)
 RXV_AES_CONTRACT(soft_aesdec, 1)
-#define RXV_MAX_LEN ((size_t)1 << 54)
+#define RXV_MAX_LEN ((size_t)1 << 50)   /* stated bound on buffer sizes: pointer offsets have 52 bits with --object-bits 12 (RandomX: 2 MiB) */
 
 /* ---------------- progress contracts (every size) ----------------
-   The variable-size buffer is represented by its base pointer and its extent (ghost rxv_buf_base / rxv_buf_size): CBMC
-   runs out of memory on a writable object of symbolic size (measured: 16 GB).  The 16-byte vector load/store helpers
-   (intrin_portable.h) are replaced by contracts that require every access to lie inside the extent - the fact that
-   r_ok / w_ok would check on a real object - or inside another valid object (the 64-byte state / hash buffers). */
+   The variable-size buffer is a base pointer with a ghost extent (CBMC cannot hold a writable object of symbolic size at
+   this access density: 16-20 GB).  The extraction turns exactly the accesses through the running pointer into the accessor
+   stand-ins below; their contracts require the 16 bytes to lie inside the extent and count the accesses to one arbitrary
+   16-byte cell (ghost probe rxv_cell: byte offset, multiple of 16).  Loads return arbitrary values (every buffer content),
+   stores change nothing the proof can observe.  That the running pointer points into the buffer object is part of the loop
+   invariants.  Postconditions: every cell below the size is stored (fill) / loaded (hash) exactly once, for hashAndFill
+   loaded exactly once and then stored exactly once, and no cell outside is touched. */
 extern uint8_t* rxv_buf_base; extern size_t rxv_buf_size;
-#define RXV_ACCESS_OK(p) (__CPROVER_same_object(p, rxv_buf_base) \
-	? (__CPROVER_POINTER_OFFSET(p) >= __CPROVER_POINTER_OFFSET(rxv_buf_base) && \
-	   (size_t)(__CPROVER_POINTER_OFFSET(p) - __CPROVER_POINTER_OFFSET(rxv_buf_base)) + 16 <= rxv_buf_size) \
-	: __CPROVER_rw_ok(p, 16))
-rx_vec_i128 rx_load_vec_i128(rx_vec_i128 const* p)
-__CPROVER_requires(RXV_ACCESS_OK(p)) __CPROVER_ensures(1) __CPROVER_assigns();
-void rx_store_vec_i128(rx_vec_i128* p, rx_vec_i128 b)
-__CPROVER_requires(RXV_ACCESS_OK(p)) __CPROVER_ensures(1)
-__CPROVER_assigns(!__CPROVER_same_object(p, rxv_buf_base): __CPROVER_object_upto(p, 16));
+extern size_t rxv_cell; extern unsigned rxv_cell_loads, rxv_cell_stores, rxv_store_before_load;
+#define RXV_CELL_OFF(p, k) ((size_t)(__CPROVER_POINTER_OFFSET(p) - __CPROVER_POINTER_OFFSET(rxv_buf_base)) + 16 * (size_t)(k))
+#define RXV_IN_EXTENT(p, k) (__CPROVER_POINTER_OFFSET(p) >= __CPROVER_POINTER_OFFSET(rxv_buf_base) && RXV_CELL_OFF(p, k) + 16 <= rxv_buf_size)
+rx_vec_i128 rxv_buf_load(const uint8_t* p, int k)
+__CPROVER_requires(k >= 0 && k < 4 && RXV_IN_EXTENT(p, k)) __CPROVER_assigns(rxv_cell_loads)
+__CPROVER_ensures(rxv_cell_loads == __CPROVER_old(rxv_cell_loads) + (RXV_CELL_OFF(p, k) == rxv_cell ? 1 : 0));
+void rxv_buf_store(uint8_t* p, int k, rx_vec_i128 v)
+__CPROVER_requires(k >= 0 && k < 4 && RXV_IN_EXTENT(p, k)) __CPROVER_assigns(rxv_cell_stores, rxv_store_before_load)
+__CPROVER_ensures(rxv_cell_stores == __CPROVER_old(rxv_cell_stores) + (RXV_CELL_OFF(p, k) == rxv_cell ? 1 : 0))
+__CPROVER_ensures(rxv_store_before_load == (__CPROVER_old(rxv_store_before_load) || (RXV_CELL_OFF(p, k) == rxv_cell && rxv_cell_loads == 0) ? 1 : 0));
+#define RXV_GHOST0 (rxv_cell_loads == 0 && rxv_cell_stores == 0 && rxv_store_before_load == 0 && rxv_cell % 16 == 0)
+#define RXV_CELL_INSIDE (rxv_cell < rxv_buf_size)
 
 void fillAes1Rx4(void *state, size_t outputSize, void *buffer)
 __CPROVER_requires(__CPROVER_is_fresh(state, 64) && outputSize % 64 == 0 && outputSize < RXV_MAX_LEN)
-__CPROVER_requires(buffer == rxv_buf_base && outputSize == rxv_buf_size)
-__CPROVER_assigns(__CPROVER_object_upto(state, 64))        /* besides the output extent: exactly the 64 state bytes */
-__CPROVER_ensures(1);
+__CPROVER_requires(buffer == rxv_buf_base && outputSize == rxv_buf_size && RXV_GHOST0)
+__CPROVER_assigns(__CPROVER_object_upto(state, 64), rxv_cell_loads, rxv_cell_stores, rxv_store_before_load)   /* besides the output extent: exactly the 64 state bytes */
+__CPROVER_ensures(rxv_cell_stores == (RXV_CELL_INSIDE ? 1 : 0) && rxv_cell_loads == 0);
 void fillAes4Rx4(void *state, size_t outputSize, void *buffer)
 __CPROVER_requires(__CPROVER_is_fresh(state, 64) && outputSize % 64 == 0 && outputSize < RXV_MAX_LEN)
-__CPROVER_requires(buffer == rxv_buf_base && outputSize == rxv_buf_size)
-__CPROVER_assigns()                                         /* besides the output extent: nothing (the 4R state is not written back) */
-__CPROVER_ensures(1);
+__CPROVER_requires(buffer == rxv_buf_base && outputSize == rxv_buf_size && RXV_GHOST0)
+__CPROVER_assigns(rxv_cell_loads, rxv_cell_stores, rxv_store_before_load)                                      /* besides the output extent: nothing (the 4R state is not written back) */
+__CPROVER_ensures(rxv_cell_stores == (RXV_CELL_INSIDE ? 1 : 0) && rxv_cell_loads == 0);
 void hashAes1Rx4(const void *input, size_t inputSize, void *hash)
 __CPROVER_requires(inputSize % 64 == 0 && inputSize < RXV_MAX_LEN && __CPROVER_is_fresh(hash, 64))
-__CPROVER_requires(input == rxv_buf_base && inputSize == rxv_buf_size)
-__CPROVER_assigns(__CPROVER_object_upto(hash, 64))
-__CPROVER_ensures(1);
+__CPROVER_requires(input == rxv_buf_base && inputSize == rxv_buf_size && RXV_GHOST0)
+__CPROVER_assigns(__CPROVER_object_upto(hash, 64), rxv_cell_loads, rxv_cell_stores, rxv_store_before_load)
+__CPROVER_ensures(rxv_cell_loads == (RXV_CELL_INSIDE ? 1 : 0) && rxv_cell_stores == 0);
 /* the two-pass loop (end - 4096, then the last 4096 bytes): sizes that are a multiple of 64 and at least the prefetch
    distance (the library calls it with the 2 MiB scratchpad) */
 void hashAndFillAes1Rx4(void *scratchpad, size_t scratchpadSize, void *hash, void* fill_state)
 __CPROVER_requires(scratchpadSize % 64 == 0 && scratchpadSize >= 4096 && scratchpadSize < RXV_MAX_LEN)
-__CPROVER_requires(scratchpad == rxv_buf_base && scratchpadSize == rxv_buf_size && __CPROVER_is_fresh(hash, 64) && __CPROVER_is_fresh(fill_state, 64))
-__CPROVER_assigns(__CPROVER_object_upto(hash, 64), __CPROVER_object_upto(fill_state, 64))
-__CPROVER_ensures(1);
+__CPROVER_requires(scratchpad == rxv_buf_base && scratchpadSize == rxv_buf_size && RXV_GHOST0 && __CPROVER_is_fresh(hash, 64) && __CPROVER_is_fresh(fill_state, 64))
+__CPROVER_assigns(__CPROVER_object_upto(hash, 64), __CPROVER_object_upto(fill_state, 64), rxv_cell_loads, rxv_cell_stores, rxv_store_before_load)
+__CPROVER_ensures(rxv_cell_loads == (RXV_CELL_INSIDE ? 1 : 0) && rxv_cell_stores == (RXV_CELL_INSIDE ? 1 : 0) && rxv_store_before_load == 0);
 
 #define RXV_OFF(p, base) ((size_t)(__CPROVER_POINTER_OFFSET(p) - __CPROVER_POINTER_OFFSET(base)))
 #define RXV_FILL_LOOP_INVARIANT \
-	__CPROVER_assigns(outptr, state0, state1, state2, state3) \
+	__CPROVER_assigns(outptr, state0, state1, state2, state3, rxv_cell_loads, rxv_cell_stores, rxv_store_before_load) \
+	__CPROVER_loop_invariant(rxv_cell_loads == 0 && rxv_cell_stores == ((rxv_cell < RXV_OFF(outptr, buffer)) ? 1 : 0)) \
 	__CPROVER_loop_invariant(__CPROVER_same_object(outptr, buffer) && outputEnd == (const uint8_t*)buffer + outputSize) \
 	__CPROVER_loop_invariant(__CPROVER_POINTER_OFFSET(outptr) >= __CPROVER_POINTER_OFFSET(buffer) && RXV_OFF(outptr, buffer) <= outputSize && RXV_OFF(outptr, buffer) % 64 == 0) \
 	__CPROVER_decreases(outputSize - RXV_OFF(outptr, buffer))
 #define RXV_HASH_LOOP_INVARIANT \
-	__CPROVER_assigns(inptr, state0, state1, state2, state3, in0, in1, in2, in3) \
+	__CPROVER_assigns(inptr, state0, state1, state2, state3, in0, in1, in2, in3, rxv_cell_loads, rxv_cell_stores, rxv_store_before_load) \
+	__CPROVER_loop_invariant(rxv_cell_stores == 0 && rxv_cell_loads == ((rxv_cell < RXV_OFF(inptr, input)) ? 1 : 0)) \
 	__CPROVER_loop_invariant(__CPROVER_same_object(inptr, input) && inputEnd == (const uint8_t*)input + inputSize) \
 	__CPROVER_loop_invariant(__CPROVER_POINTER_OFFSET(inptr) >= __CPROVER_POINTER_OFFSET(input) && RXV_OFF(inptr, input) <= inputSize && RXV_OFF(inptr, input) % 64 == 0) \
 	__CPROVER_decreases(inputSize - RXV_OFF(inptr, input))
 #define RXV_HASHFILL_LOOP_INVARIANT \
-	__CPROVER_assigns(scratchpadPtr, prefetchPtr, hash_state0, hash_state1, hash_state2, hash_state3, fill_state0, fill_state1, fill_state2, fill_state3) \
+	__CPROVER_assigns(scratchpadPtr, prefetchPtr, hash_state0, hash_state1, hash_state2, hash_state3, fill_state0, fill_state1, fill_state2, fill_state3, rxv_cell_loads, rxv_cell_stores, rxv_store_before_load) \
+	__CPROVER_loop_invariant(rxv_store_before_load == 0 && rxv_cell_loads == ((rxv_cell < RXV_OFF(scratchpadPtr, scratchpad)) ? 1 : 0) && rxv_cell_stores == rxv_cell_loads) \
 	__CPROVER_loop_invariant(__CPROVER_same_object(scratchpadPtr, scratchpad) && __CPROVER_same_object(scratchpadEnd, scratchpad)) \
 	__CPROVER_loop_invariant(__CPROVER_POINTER_OFFSET(scratchpadPtr) >= __CPROVER_POINTER_OFFSET(scratchpad) && RXV_OFF(scratchpadPtr, scratchpad) % 64 == 0) \
 	__CPROVER_loop_invariant(__CPROVER_POINTER_OFFSET(scratchpadPtr) <= __CPROVER_POINTER_OFFSET(scratchpadEnd)) \
